@@ -81,8 +81,11 @@ fn main() {
             let ts_ = t as f64 / 1e9;
             let (ea, ev, ep, vm, pm) = r.at(ts_);
             // the crate converts t (i64 ns) to f32 seconds: relative 2^-24 on t, i.e. |v|*t*2^-24 on position
-            let vb = K * U * vm;
-            let pb = K * U * pm;
+            // ... and stores t1..t3 truncated to whole nanoseconds while cruising at exactly max_vel: against a reference
+            // built from the recovered (truncated) boundaries that is a velocity offset of up to |a| x 1 ns per boundary,
+            // which persists for the rest of the move (seen on the unchanged tree for a 55 us there-and-back move)
+            let vb = K * U * vm + 2.0 * r.a.abs() * 1e-9;
+            let pb = K * U * pm + 2.0 * r.a.abs() * 1e-9 * ts_.max(1e-9);
             rep.eval();
             rep.tally(["", "phase1", "phase2", "phase3"][if t < b[0] { 1 } else if t < b[1] { 2 } else { 3 }]);
             if !same(acc, ea as f32) {
